@@ -6,6 +6,7 @@ for d in /verif/seeded/*/; do
   name=$(basename $d); prop=${name%%-*}
   det=$(python3 -c "import json;print(json.load(open('$d/meta.json')).get('detected_by_check',''))")
   [ "$det" = yes ] && continue
+  grep -q not_detected_because $d/meta.json && continue
   git -C /repo apply $d/patch.diff || { echo "apply failed $name"; continue; }
   out=$(cd /verif && timeout 7200 ./check $prop $TIER 2>&1); rc=$?
   git -C /repo checkout -q -- .
